@@ -30,6 +30,9 @@ type n13 struct {
 
 var n13NT = []string{"In", "Na", "Nb", "Nc"}
 
+// n13OptSuffix: X? of a plain nonterminal reference is written Xopt in this grammar
+var n13OptSuffix bool
+
 func n13Rand(r *vRand, depth, nn int) *n13 {
 	leaf := func() *n13 {
 		n := &n13{kind: 't', term: 1 + r.Intn(3)}
@@ -114,6 +117,9 @@ func (n *n13) render(top bool) string {
 		return "(" + strings.Join(ps, " | ") + ")"
 	case 'o':
 		inner := n.sub[0]
+		if n13OptSuffix && inner.kind == 'n' && inner.name == "" {
+			return n13NT[inner.nt] + "opt" // the suffix notation: an optional symbol instantiated on demand
+		}
 		if inner.kind == 't' || inner.kind == 'n' || inner.kind == 'c' {
 			return inner.render(false) + "?"
 		}
@@ -214,9 +220,22 @@ func TestVerifC13Compiler(t *testing.T) {
 		nn := 3 + r.Intn(2)
 		trees := make([][]*n13, nn)
 		var sb strings.Builder
-		sb.WriteString("language g13(go);\n\n:: lexer\n\n'a': /a/\n'b': /b/\n'c': /c/\n\n:: parser\n\n%input In;\n\n")
+		// every fourth grammar writes optional nonterminals with the opt suffix; every eighth does so
+		// for the C++ target with typed nonterminals, where the instantiated Xopt carries a semantic
+		// action next to the optional part (seeded change C13-r13m2 lost the empty alternative there)
+		n13OptSuffix = i%4 == 3
+		typed := i%8 == 7
+		if typed {
+			sb.WriteString("language g13(cc);\n\nnamespace = \"g13\"\n\n:: lexer\n\n'a': /a/\n'b': /b/\n'c': /c/\n\n:: parser\n\n%input In;\n\n")
+		} else {
+			sb.WriteString("language g13(go);\n\n:: lexer\n\n'a': /a/\n'b': /b/\n'c': /c/\n\n:: parser\n\n%input In;\n\n")
+		}
 		for k := 0; k < nn; k++ {
-			fmt.Fprintf(&sb, "%s :\n", n13NT[k])
+			if typed && k > 0 {
+				fmt.Fprintf(&sb, "%s {int} :\n", n13NT[k])
+			} else {
+				fmt.Fprintf(&sb, "%s :\n", n13NT[k])
+			}
 			for a := 0; a < 1+r.Intn(3); a++ {
 				alt := &n13{kind: 's'}
 				for j := 0; j < 1+r.Intn(3); j++ {
@@ -262,6 +281,9 @@ func TestVerifC13Compiler(t *testing.T) {
 			k := fatal
 			if len(k) > 50 {
 				k = k[:50]
+			}
+			if typed {
+				k = "cc: " + k
 			}
 			rejected[k]++
 			continue
